@@ -6,7 +6,8 @@ CFG = dict(
     shard=250,
     design_ref="DESIGN.md 6.7; notes/C07.md",
     technique="Coq proof about Gallina models of (a) the lint-mode fix loop skeleton and LintedFile::fix_string and (b) the "
-              "lint_paths fan-out/fan-in bookkeeping (any completion order = any permutation of the selected files), + "
+              "lint_paths expansion loop (seen-set keyed by the file's identity) and fan-out/fan-in bookkeeping (any path arguments, any "
+              "completion order = any permutation of the selected files), + "
               "correspondence of both models with the real code (fix-loop observer hook; lint_paths vs lint_string on batches under "
               "RAYON_NUM_THREADS 1/4/16 in separate processes) and (c) the OutputStreamFormatter's verdict (has_fail, files "
               "dispatched) for any dispatch order + direct observation of every clause, including the outcome seen through the "
@@ -17,7 +18,10 @@ CFG = dict(
                "C07_no_panic_and_buckets (for every completion order the result is, directory by directory, the same multiset; bucket i "
                "holds exactly the selected files attributed to argument i), C07_each_exactly_once, C07_batch_independent (for expansions "
                "without duplicates every selected file has exactly one entry, equal to the per-file lint result, whatever the rest of the "
-               "batch), C07_verdict_order_independent / C07_verdict_is_any_fail / C07_verdict_batch_independent / "
+               "batch), C07_dedup_at_most_once / C07_dedup_each_file_exactly_once / C07_dedup_batch_independent (the whole of lint_paths, "
+               "expansion loop included: for all path arguments - repeated, overlapping, the same file under several spellings - no "
+               "panic, one directory per argument, no file twice; a file has exactly one entry iff some argument reaches it and it "
+               "is not ignored; its result does not depend on the other arguments or their spelling), C07_verdict_order_independent / C07_verdict_is_any_fail / C07_verdict_batch_independent / "
                "C07_verdict_monotone (the formatter's has_fail and file count after dispatching the files in any order: 'some file "
                "fails', each file once, at every verbosity >= 0; never reset by a later clean file). Real rayon interleavings, data races and the per-file function's purity (H_pure) are outside the model: they are "
                "explored (thread counts, repeated runs, fresh/reused linters, separate processes) and monitored, hence partial.",
@@ -29,30 +33,34 @@ CFG = dict(
          "lint_fix_parsed with the rule list of the real linter and 'this rule proposes a fix' oracles taken from the fixable "
          "violations must predict the event trace and that the final tree is the initial one), patches empty, fix_string = "
          "normalised source, same linter twice and fresh linter (H_pure). part B: a 20-file tree (same content under different "
-         "names, upper-case extension, ignored files, a non-sql file, nested directories); seeded batches of distinct non-overlapping "
-         "arguments (all files permuted, directories, subsets, mixes; every file alone, every directory alone, no argument, "
-         "nothing but ignored files, random batches of 1-3 files) x 4 ignore predicates x 2 rule sets x RAYON_NUM_THREADS in "
+         "names, upper-case extension, ignored files, a non-sql file, nested directories, a symbolic link to a file and one to a "
+         "directory); seeded batches (all files permuted, directories, subsets, mixes; every file alone, every directory alone, no "
+         "argument, nothing but ignored files, random batches of 1-3 files; the same file reached through several arguments: "
+         "repeated arguments, a directory and something inside it, the same file or directory spelled differently - ./x, absolute, "
+         "d/../d/x, d//x, d/, d/., through the links - in both orders) x 4 ignore predicates (on the canonical path) x 2 rule sets x RAYON_NUM_THREADS in "
          "{1,4,16} (one process each) x {reused linter, same again, fresh linter, linter with OutputStreamFormatter at verbosity "
-         "0/1/2/-1, linter with JsonFormatter}; every result compared with lint_string per file, exactly-once, directory "
-         "attribution, has_fail = some selected file fails, files dispatched = files selected, JSON collection = per-file "
+         "0/1/2/-1, linter with JsonFormatter}; every result compared with lint_string per file, every selected file (identity = canonical path) exactly once "
+         "under whichever spelling, every stored path a path of some argument's expansion, directory attribution, has_fail = some selected file fails, files dispatched = files selected, JSON collection = per-file "
          "collections; digests equal across runs/linters/formatters/thread counts/processes; lint_string sequences (pairs, tree "
-         "order, random) on one linter + formatter with the verdict checked after every file; group sched: the Gallina collect on "
-         "the recorded expansion lists, ignore set, reference results and observed completion order must reproduce the observed "
-         "directories exactly, and the observed order must be a permutation of the model's selected files; group verdict: the "
+         "order, random) on one linter + formatter with the verdict checked after every file; group sched: the Gallina lint_paths (expansion loop "
+         "with the seen-set + collect) on the recorded expansion lists (spelled paths), the identity of every spelling, ignore set, "
+         "reference results and observed completion order must reproduce the observed directories exactly (which spelling is "
+         "kept, under which argument), and the observed order must be a permutation of the model's selected paths; group verdict: the "
          "Gallina dispatch_all on the (fails, warns) of the files must give the formatter's has_fail and file count. part C: 40 "
          "configurations (5 dialects, rule selections, rule/layout options, every placeholder param_style, 7 param_regex incl. an "
          "invalid one, erroneous templater sections) x 10 texts: each configuration alone in a process of its own, and all of them "
          "one after the other in a different order in each worker process (fresh linters; linters created up front and used "
          "interleaved under one file name; lint_paths on a directory): templated text + violations identical everywhere "
          "(H_pure_history), lint-only fix_string = source under every configuration. non-trivial: lintloop = at least "
-         "one rule proposed a fix; sched = more than one argument and more than two selected files; verdict = failing and clean "
+         "one rule proposed a fix; sched = more than one argument and (more than two selected files or a file reached more than once); verdict = failing and clean "
          "files mixed; distinct = distinct (args, expected)",
     assumptions=[
         "H_pure: lint_rendered is a function of (file content, configuration) (monitored: repeated and fresh-linter runs; blocking)",
         "H_pure_history: what is reported for (content, configuration) does not depend on the configurations, linters and files the "
         "process handled before (monitored: every configuration alone in a process vs. inside three differently ordered histories; blocking)",
         "H_parse_patches: the freshly parsed tree yields no patch (consequence of C01/C02's lexer/parser invariants; monitored; blocking)",
-        "path arguments are distinct and non-overlapping (overlapping arguments are expanded twice: handled under C19)",
+        "two paths are the same file iff std::fs::canonicalize gives the same path (hard links are different files); the ignore "
+        "predicates of the batches are functions of the canonical path (for a spelling-dependent ignorer the theorem is at-most-once)",
         "input newlines are normalised before templating: 'equals the source' is checked against the normalised source (DESIGN section 8)",
         "texts with '-- sqlfluff' inline configuration lines are excluded (process_inline_config panics: C03)",
     ],
